@@ -74,6 +74,33 @@ CLAIMED = {
             "checked only through their own invariants on the implementation's outputs - 'the value defined by the protocol' is then as strong "
             "as C04; primality of key factors by a strong-probable-prime test; AES/HMAC/KDF/SHA-256 are the C14 definitions.",
             "tools/props/c06.py (TRUSTED), lean/RelicVerif/Props/C06.lean"),
+    "C13": ("Lean 4 proofs over an arbitrary field (SSWU / SvdW / SwiftEC / Elligator 2 outputs satisfy the curve equation for every input incl. "
+            "the exceptional ones; the C code of the maps = the RFC 9380 text for every input; Horner / isogeny, cofactor, try-and-increment "
+            "termination) + correspondence on 9 prime curves in 5 builds, 3 curves over Fp2, 2 binary curves, Ed25519",
+            "Proved in Lean, for every field element of an arbitrary field with an is_square/sqrt oracle contract that every finite field satisfies: "
+            "map_to_curve_simple_swu, map_to_curve_svdw (with the constants defined from Z, or any constants satisfying the defining equations), "
+            "SwiftEC (a = 0) and Elligator 2 return a point of the curve - including u with Z^2u^4+Zu^2 = 0 resp. (1-u^2g(Z))(1+u^2g(Z)) = 0 - which "
+            "contains 'one of the three SvdW / SwiftEC candidates is a square' (one identity serves both); the models of TMPL_MAP_SSWU (denominator "
+            "patch, shortcut u^3t^6 g(x1)), TMPL_MAP_SVDW (inv0 emulation), EP_MAP_APPLY_MAP, TMPL_MAP_HORNER / TMPL_MAP_ISOGENY_MAP and of the a = 0 "
+            "branch of ep_map_swift_impl equal the documented construction for every input; the sgn0 correction preserves the curve equation; the "
+            "Montgomery->Edwards map lands on the Edwards curve; h*P lies in the r-torsion of a group of exponent h*r; try-and-increment "
+            "terminates within p steps; the half-trace solves the quadratic of eb_map. The hypotheses on the map constants (Z non-square, "
+            "g(B/(ZA)) square, c1..c4 equations, sqrt(-3), sqrt(-(J+2)) ...) are evaluated by the driver on the constants READ from the running "
+            "library on every context line - which is how finding C13-1 shows. Tie: ~1700 lines per run: ep_map / ep_map_basic / ep_map_sswum / "
+            "ep_map_swift for messages of 0..300 bytes and ep_map_rnd in the three builds EP_MAP = SSWUM / BASIC / SWIFT with uniform strings "
+            "reducing to 0, +-1, p-1, the exceptional elements of each map, u0 = +-u1, representatives >= p, short / long strings, on NIST / BSI / "
+            "SM2 P-256, secp256k1, BN-P256, SM9-P256, Curve25519 (Weierstrass, h = 8), Tweedledum, BLS12-381 G1 (11-isogeny, h_eff = 1 - x); "
+            "eb_map on NIST B-283 / K-283; ed_map, ed_map_dst (DST lengths 0..300), Elligator 2 from a field element on Ed25519; each output "
+            "ep2_map / ep2_map_sswum / ep2_map_basic on the Fp2 twists of BN-P256, SM9-P256 (SvdW, Fuentes et al. cofactor clearing) and BLS12-381 "
+            "(SSWU, 3-isogeny, Budroni-Pintore); each output compared with the specification's point exactly, checked on-curve, n*P = O, and "
+            "evaluated twice for determinism. PARTIAL: ep2_map_swift and the maps over Fp3 / Fp4 / Fp8 are not covered; eb_map / ed_map / ep2_map "
+            "are compared with the specification only (no model of their C code; the template theorems hold over any field).",
+            "Trusted: Lean kernel; hand-written specification and model tied by correspondence; map constants read from the running library and "
+            "checked against their defining properties; group law, field oracles, md_xmd are the subjects of C03 / C02 / C14 (compared here, not "
+            "re-proved); subgroup membership is per line (theorem only modulo #E = h*r, C18). Known findings C13-1 (ep_curve_set_map accepts a Z "
+            "violating RFC 9380 condition 4: exceptional inputs leave the curve on SM2_P256 and Curve25519) and C13-2 (ep_map_swift_impl overwrites "
+            "the identity it sets for exceptional parameters with a stack-dependent value).",
+            "DESIGN.md §5 C13"),
     "C07": ("Lean 4 proofs (integer binary/text conversions round-trip, are canonical, decode only valid values and re-encode to the "
             "input) + correspondence of integer, field and point decoders/encoders incl. a malformed stream",
             "Proved in Lean for the model: bn_write_bin/bn_read_bin/bn_size_bin and bn_write_str/bn_read_str/bn_size_str (every radix 2..64): "
